@@ -117,7 +117,10 @@ func newBackend(kind string, cfg cache.Config) beBackend {
 			del:    m.Delete,
 			expAll: m.ExpireAll, delAll: m.DeleteAll, length: m.Len, stop: m.VerifStop,
 			walk: func(fn func(key []byte, v interface{}, exp time.Time) error) (int, error) {
-				return m.Walk(func(en cache.Entry) error { zs.ReadAll(en, walkCopyLabel); return fn(en.Key(), en.Value(), en.ExpireAt()) })
+				return m.Walk(func(en cache.Entry) error {
+					zs.ReadAll(en, walkCopyLabel)
+					return fn(en.Key(), en.Value(), en.ExpireAt())
+				})
 			},
 			// SyncMap has no Load/Store of its own: Read/Write with a background context.
 			load: func(k []byte) (interface{}, bool) {
@@ -138,7 +141,10 @@ func newBackend(kind string, cfg cache.Config) beBackend {
 			del:    m.Delete,
 			expAll: m.ExpireAll, delAll: m.DeleteAll, length: m.Len, stop: m.VerifStop,
 			walk: func(fn func(key []byte, v interface{}, exp time.Time) error) (int, error) {
-				return m.Walk(func(en cache.EntryOf[Tok]) error { zs.ReadAll(en, walkCopyLabel); return fn(en.Key(), en.Value(), en.ExpireAt()) })
+				return m.Walk(func(en cache.EntryOf[Tok]) error {
+					zs.ReadAll(en, walkCopyLabel)
+					return fn(en.Key(), en.Value(), en.ExpireAt())
+				})
 			},
 			load: func(k []byte) (interface{}, bool) {
 				v, ok := m.Load(k)
@@ -165,7 +171,10 @@ func newBackend(kind string, cfg cache.Config) beBackend {
 			del:    m.Delete,
 			expAll: m.ExpireAll, delAll: m.DeleteAll, length: m.Len, stop: m.VerifStop,
 			walk: func(fn func(key []byte, v interface{}, exp time.Time) error) (int, error) {
-				return m.Walk(func(en cache.Entry) error { zs.ReadAll(en, walkCopyLabel); return fn(en.Key(), en.Value(), en.ExpireAt()) })
+				return m.Walk(func(en cache.Entry) error {
+					zs.ReadAll(en, walkCopyLabel)
+					return fn(en.Key(), en.Value(), en.ExpireAt())
+				})
 			},
 			load:        func(k []byte) (interface{}, bool) { return m.Load(k) },
 			store:       func(k []byte, v Tok) { m.Store(k, v) },
